@@ -951,7 +951,12 @@ int safec_vsnprintf_s(out_fct_type out, const char *funcname, char *buffer,
                 precision = safec_atoi(&format);
             } else if (*format == '*') {
                 const int prec = (int)va_arg(va, int);
-                precision = prec > 0 ? (unsigned int)prec : 0U;
+                if (prec < 0) {
+                    // a negative precision is taken as if it were omitted
+                    flags &= ~FLAGS_PRECISION;
+                } else {
+                    precision = (unsigned int)prec;
+                }
                 format++;
             }
         }
